@@ -12,5 +12,21 @@ for sid in sorted(os.listdir(os.path.join(ROOT, "seeded"))):
     rows.append(f"| {sid} | {m['breaks_property']} | {note} | {', '.join(m['checks_reporting_VIOLATION']) or '–'} | {', '.join(m['checks_inconclusive_exit2']) or '–'} |")
 s = open(os.path.join(ROOT, "DESIGN.md")).read()
 s = re.sub(r"<!-- SEEDTABLE -->.*?<!-- /SEEDTABLE -->", "<!-- SEEDTABLE -->\n" + "\n".join(rows) + "\n<!-- /SEEDTABLE -->", s, flags=re.S)
+metas = [json.load(open(os.path.join(ROOT, "seeded", d, "meta.json"))) for d in sorted(os.listdir(os.path.join(ROOT, "seeded")))
+         if os.path.exists(os.path.join(ROOT, "seeded", d, "meta.json"))]
+own = [m for m in metas if m["breaks_property"] in m["checks_reporting_VIOLATION"]]
+own2 = [m for m in metas if m not in own and m["breaks_property"] in m["checks_inconclusive_exit2"]]
+other = [m for m in metas if m not in own and m["checks_reporting_VIOLATION"]]
+silent = [m for m in metas if m not in own and not m["checks_reporting_VIOLATION"] and not m["checks_inconclusive_exit2"]]
+only2 = [m for m in metas if m not in own and not m["checks_reporting_VIOLATION"] and m["checks_inconclusive_exit2"]]
+ids = lambda ms: ", ".join(f"{m['id']} ({m['breaks_property']})" for m in ms) or "none"
+stats = (f"Of the {len(metas)} stored changes, {len(own)} are reported as VIOLATION by the check of the property they were aimed at. "
+         f"Of the other {len(metas) - len(own)}, {len(other)} are reported as VIOLATION by the check of another property only "
+         f"({ids(other)}; of these the own check ends inconclusive, exit 2, for {ids([m for m in other if m in own2])}), "
+         f"{len(only2)} end inconclusive (exit 2) without any VIOLATION ({ids(only2)}) and {len(silent)} pass every check "
+         f"silently ({ids(silent)}) - the last group is what the machinery misses today.")
+import textwrap
+s = re.sub(r"<!-- SEEDSTATS -->.*?<!-- /SEEDSTATS -->", "<!-- SEEDSTATS -->\n" + textwrap.fill(stats, 79) + "\n<!-- /SEEDSTATS -->", s, flags=re.S)
 open(os.path.join(ROOT, "DESIGN.md"), "w").write(s)
+print(stats)
 print(len(rows) - 2, "seeds")
